@@ -114,6 +114,10 @@ def cases(tier, seed, i, n):
                 c['cbits'] = rnd.choice((8, 9, 10, 12, 15))
                 c['snct'] = False
                 yield c
+                if idx % 50 == 4:
+                    # the same with a compressed send of the application failing in between (nothing written)
+                    c2 = dict(c, cfail=('timeout', 'runtime')[idx // 50 % 2])
+                    yield c2
     return gen.shard(allcases(), i, n)
 
 
@@ -143,6 +147,9 @@ def run_case(case, acc):
     else:
         steps += [('eof',)]
     policy = None
+    if case.get('cfail'):
+        policy = H.TablePolicy({'binary#0': [['send_text', 'a client message that does not get out ' * 2]]})
+        acc.count2('oracle', 'runs_with_a_failing_client_send')
     if case.get('app_closed'):
         steps = [('await_close',), ('raw', stream + refws.enc_frame(8, refws.close_payload(1000, 'reply'))), ('eof',)]
         policy = H.TablePolicy({'poll#0': [['close', 1001, 'application closes first']]})
@@ -169,6 +176,8 @@ def run_case(case, acc):
             cuts = [c - hl0 + hl for c in cuts]
         acc.count2('oracle', 'compressed_connection_runs')
     w = H.World(H.hs_server(steps, hs), cuts=cuts)
+    if case.get('cfail'):
+        w.frame_faults = {1: case['cfail']}
     run = H.drive(w, ws_kwargs=dict(compress=True) if hs is not None else None, connect_kwargs=dict(ping_rate=0), policy=policy)
     acc.count2('runs', 'end=' + str(run.end))
     got = run.messages()
